@@ -90,9 +90,11 @@ def check_tapering(ctx, case):
         try:
             nontrivial |= taper_one(ctx, H, mol, p, n, ne, sp, mapping, utd, labels)
         except Fail as f:
-            if idle:
-                # one root cause (kernel of an operator that never touches a register qubit is non-abelian): one signature
-                raise Fail(f.msg + f" [register qubits {idle} are not touched by the Hamiltonian; original signature {f.sig}]",
+            if idle or padded_register(case):
+                # one root cause: the padded UHF register holds spin-orbitals without any integral. Besides Z-type
+                # occupation parity, the Majorana operator of such a mode commutes with H, so the symmetry kernel is
+                # non-abelian (under JW/BK/JKMN alike) and tapering picks incompatible generators: one signature.
+                raise Fail(f.msg + f" [padded UHF register; untouched register qubits {idle}; original signature {f.sig}]",
                            sig=IDLE_SIG, **f.details) from None
             raise
     return nontrivial, labels
